@@ -27,6 +27,7 @@ import (
 	"github.com/scionproto/scion/pkg/drkey"
 	cppb "github.com/scionproto/scion/pkg/proto/control_plane"
 	dkpb "github.com/scionproto/scion/pkg/proto/drkey"
+	"github.com/scionproto/scion/pkg/snet"
 
 	"verifharness/vlib"
 )
@@ -95,15 +96,20 @@ type otherAuth struct{}
 
 func (otherAuth) AuthType() string { return "other" }
 
+// local ISD-AS of the server the next fabricated peer talks to (for SCION peer addresses)
+var curLocal addr.IA
+
 // fabricated requester
 type peerCase struct {
-	p     *peer.Peer // nil: no peer in the context
-	op    string
-	ip    net.IP // TCP peers only
-	isTCP bool
-	cert  *addr.IA // IA authenticated by the certificate (nil: none)
-	sane  bool     // a TCP address whose IP has 4 or 16 bytes (what a real connection yields)
-	skid  []byte   // subject key identifier of the presented leaf certificate
+	p       *peer.Peer // nil: no peer in the context
+	op      string
+	ip      net.IP // TCP peers only
+	isTCP   bool
+	cert    *addr.IA // IA authenticated by the certificate (nil: none)
+	sane    bool     // a TCP address whose IP has 4 or 16 bytes (what a real connection yields)
+	skid    []byte   // subject key identifier of the presented leaf certificate
+	otherIP net.IP   // IP carried by a non-TCP peer address (never a valid requester identity)
+	detail  string   // non-TCP peers: Go value of the address
 }
 
 func genIP(r *vlib.Rand) net.IP {
@@ -130,21 +136,33 @@ func mkPeer(r *vlib.Rand, ip net.IP, wantCert bool, certIA addr.IA, skid []byte)
 	p := &peer.Peer{}
 	var aop string
 	switch k := r.Intn(100); {
-	case k < 90:
+	case k < 82:
 		p.Addr = &net.TCPAddr{IP: ip, Port: r.Range(1, 65535)}
 		pc.ip, pc.isTCP, pc.sane = ip, true, len(ip) == 4 || len(ip) == 16
 		aop = "tcp." + vlib.Hex(ip)
-	case k < 93:
+	case k < 85:
 		p.Addr = &net.TCPAddr{IP: nil, Port: 1}
 		pc.isTCP = true
 		aop = "tcp.-"
-	case k < 95:
+	case k < 87:
 		w := net.IP(r.Bytes([]int{1, 3, 5, 12, 15, 17}[r.Intn(6)]))
 		p.Addr = &net.TCPAddr{IP: w, Port: 1}
 		pc.ip, pc.isTCP = w, true
 		aop = "tcp." + vlib.Hex(w)
+	case k < 96: // a host reaching the service over SCION/QUIC: from the local AS or from ANOTHER AS
+		ia := curLocal
+		if r.Chance(60) {
+			ia = addr.IA(r.U64())
+			if r.Bool() {
+				ia = curLocal ^ addr.IA(uint64(1)<<r.Intn(64))
+			}
+		}
+		p.Addr = &snet.UDPAddr{IA: ia, Host: &net.UDPAddr{IP: ip, Port: r.Range(1, 65535)}}
+		pc.otherIP, pc.detail = ip, fmt.Sprintf("*snet.UDPAddr{IA: %s, Host: %s}", ia, ip)
+		aop = "other"
 	case k < 98:
 		p.Addr = &net.UDPAddr{IP: ip, Port: 1}
+		pc.otherIP, pc.detail = ip, fmt.Sprintf("*net.UDPAddr{IP: %s}", ip)
 		aop = "other"
 	default:
 		p.Addr = &net.UnixAddr{Name: "/tmp/x", Net: "unix"}
@@ -325,7 +343,8 @@ func main() {
 	e := vlib.Init()
 	r := vlib.NewRand(uint64(e.Seed))
 	e.Rule = "each of the six handlers of control/drkey/grpc.Server called with fabricated requests: requester = " +
-		"TCP peer with 4-/16-byte/IPv4-mapped/nil/odd-length IP or a non-TCP address, no peer at all; TLS state " +
+		"TCP peer with 4-/16-byte/IPv4-mapped/nil/odd-length IP or a non-TCP address (*snet.UDPAddr of the local or of " +
+		"another AS, *net.UDPAddr, unix; level-2/3 requests then name that address's own IP), no peer at all; TLS state " +
 		"absent / non-TLS / no certificate / rejected chain / chain authenticating an ISD-AS; protocol ids incl. " +
 		"Generic, niche, values that truncate to Generic/SCMP, negative; timestamps valid, nil, out of range; request " +
 		"hosts naming the requester in several textual forms, a host one bit away, other hosts, service names, zoned " +
@@ -355,6 +374,7 @@ func main() {
 				return addr.IA(r.U64())
 			}
 		}
+		curLocal = local
 		ip := genIP(r)
 		ts := genTs(r)
 		proto := genProto(r)
@@ -383,6 +403,9 @@ func main() {
 			}
 			if pc.p != nil {
 				rp["cert_subject_key_id"] = vlib.Hex(pc.skid)
+			}
+			if pc.detail != "" {
+				rp["peer_addr"] = pc.detail
 			}
 			if h != nil {
 				rp["request"] = op
@@ -538,7 +561,11 @@ func main() {
 					}
 				}
 			}
-			sh, dh := hostText(r, pc.ip, srcMatch), hostText(r, pc.ip, dstMatch)
+			nameIP := pc.ip
+			if !pc.isTCP && pc.otherIP != nil { // requests naming the IP of a non-TCP requester
+				nameIP = pc.otherIP
+			}
+			sh, dh := hostText(r, nameIP, srcMatch), hostText(r, nameIP, dstMatch)
 			op = fmt.Sprintf("%s %d %s %d %s %d %d %s %s %s %s", kind, uint64(local), pc.op, proto, ts.op,
 				uint64(src), uint64(dst), vlib.Hex([]byte(sh)), vlib.Hex([]byte(dh)),
 				vlib.Hex(net.ParseIP(sh)), vlib.Hex(net.ParseIP(dh)))
